@@ -6,7 +6,8 @@ Line-protocol driver for the store snapshotting model (component `snapsm`), C04.
   noop                          → ok
   snap <ok|notinvoked|failbefore|failafter>   → full | incremental | nothing | nowal | full-not-installed | incremental-not-installed
   snapbegin                     → full | incremental | nowal | busy          (FSM.Snapshot())
-  snapend <outcome>             → installed | not-installed | nopending      (Persist + Close / Release)
+  snapend <outcome>             → installed | not-installed | nopending | fatal-exit   (Persist + Close / Release;
+                                  fatal-exit: Sink.Close exited the process, which was then restarted)
   load <content> / boot <content> / install <content>   → ok     content = ids comma-separated, `e` empty
   reap                          → ok
   restart                       → ok | corrupt
